@@ -135,6 +135,18 @@ def discharge_portfolio(obls, timeout_ms=60000, jobs=None):
 
 
 def discharge(obls, timeout_ms=60000, jobs=None, second=False, portfolio_kinds=('fp',)):
+    # obligations of different bundles may share a name: work on unique internal keys
+    names = [o.name for o in obls]
+    if len(set(names)) != len(names):
+        saved = {}
+        for i, o in enumerate(obls):
+            saved[i] = o.name
+            o.name = '%d::%s' % (i, o.name)
+        try:
+            return discharge(obls, timeout_ms, jobs, second, portfolio_kinds)
+        finally:
+            for i, o in enumerate(obls):
+                o.name = saved[i]
     pf = [o for o in obls if getattr(o, 'portfolio', False)]
     if pf:
         discharge_portfolio(pf, timeout_ms, jobs)
